@@ -23,6 +23,9 @@ const (
 var gangPartition = []string{"PendingChildren", "WaitingForBindChildren", "BoundChildren"}
 
 func c04(c *Ctx) {
+	c04oneSnapshot(c)
+	c.R.Rule("CREATE-ONCE: in a get-or-create of a per-key record, the lookup that finds the key absent and the store of the fresh record happen in one hold of the mutex the store runs under (no release of it in between)")
+	createOnce(c, c.Fn(gangCorePkg, "GangCache", "getGangFromCacheByGangId"), "the pod the first handler recorded sits on an orphaned gang: it is in none of the pending, waiting or bound sets of the gang the cache hands out")
 	c04statusMap(c)
 	r := c.R
 	r.Decides("every insertion of a member into one of the pending/waiting/bound sets is paired, in the same critical section, with its removal from (or a dominating absence test in) each other set")
